@@ -95,7 +95,12 @@ func (sr *SR) Transformers() (forward, inverse Transformer, err error) {
 			"transformer for %s", sr.Name)
 		return
 	}
-	forward, inverse, err = t(sr)
+	// The set-up functions store defaults and derived values in the reference
+	// they are given. They work on a copy, so that a reference that has been
+	// used still compares Equal to a fresh parse of the same definition (and
+	// NewTransform treats the two alike).
+	c := *sr
+	forward, inverse, err = t(&c)
 	return
 }
 
